@@ -15,12 +15,13 @@ func init() {
 		Explanation: "Convergence 'once activity settles' is a runtime notion and is not decided. Decided: (R1) every store to the claim or to the state outside the constructor happens under the election mutex (write), and each critical section leaves constants with claim == (state == LEADER) (the start unit stores CANDIDATE only); Status() loads claim and state under one read-lock hold - hence every snapshot has IsLeader <=> State == LEADER and a stop leaves (false, STOPPED); " +
 			"(R2) each such section updates the is-leader gauge after the claim store and records a transition whose from-state is the state loaded in that section before the store and whose to-state is the constant stored (chain property); " +
 			"(R3) the leader id, revision and token fields are written only by the claim-set unit, by the refresh's own-write result, or under the write lock while the claim is false in that section - a leader's snapshot therefore shows its own id, token and latest own revision; (R4) every constant stored to the state is one of the documented State* values.",
-		NotDecided: []string{"that a follower's LeaderID converges to the live record's id (needs watch delivery)", "that the gauge equals IsLeader() once activity settles (needs quiescence)"},
+		NotDecided: []string{"that a follower's LeaderID converges to the live record's id in time (needs watch delivery or the periodic check to run); decided is that both hand the id on unconditionally (R5)", "that the gauge equals IsLeader() once activity settles (needs quiescence)"},
 		Assumptions: []string{"the Metrics implementation records what it is given"},
 		Rules: map[string]string{
 			"R1": "claim/state stores have the election mutex (W) in their must-lockset; per function: claim true <=> state LEADER among the constants stored; Status(): claim and state loads under the mutex (R)",
 			"R2": "in every function storing the claim: a call reaching Metrics.SetIsLeader after the claim store; a call reaching Metrics.IncTransitions whose `to` argument is the stored state constant and whose `from` argument derives from a state load preceding the state store in the same section",
 			"R3": "stores to leaderID / revision / token: in a claim-set unit | own-write result | under the write lock with claim==false in that section",
+			"R5": "every follower-side function that reads the live record (it is reachable from the follower loop and reaches Get or receives watch entries) hands the record's id to the function that stores the leader-id field; at that call no guard demands that a leader id is already known (NOT (\"\" == <leader id field>))",
 			"R4": "constants stored to the state field are a subset of the exported State* constants",
 		},
 	})
@@ -272,6 +273,7 @@ func checkC18(c *Ctx) {
 			})
 		}
 	}
+	followerObservesLeaderRule(c, "R5")
 }
 
 func firstOf(a, b []ssa.Instruction) ssa.Instruction {
@@ -290,4 +292,65 @@ func keysOfStr(m map[string]string) []string {
 		out = append(out, v)
 	}
 	return out
+}
+
+
+// followerObservesLeaderRule (C18-R5): a follower learns the leader's id from the live record by
+// two ways, the watch and the periodic check; each must store the id it reads whenever it differs
+// from the known one - also when none is known yet (a follower whose watch cannot be established
+// has only the periodic check).
+func followerObservesLeaderRule(c *Ctx, rule string) {
+	m := c.M
+	root, _, _, _ := m.followerLoop()
+	if root == nil {
+		c.undecided(rule, "follower loop", nil, "not found")
+		return
+	}
+	// the functions that store the leader-id field outside the claim-set units
+	var observe []*ssa.Function
+	for _, f := range m.Funcs {
+		if m.isCtorCode(f) || m.inClaimUnit(f) {
+			continue
+		}
+		eachInstr(f, func(in ssa.Instruction) {
+			if call, ok := in.(*ssa.Call); ok {
+				if fld, _, ok := m.atomicStore(call); ok && fld == m.LeaderID && !containsFn(observe, f) {
+					observe = append(observe, f)
+				}
+			}
+		})
+	}
+	if len(observe) == 0 {
+		c.viol(rule, "followers record the leader they observe", firstInstr(root), "no function outside the claim-set units stores %s: a follower never learns who leads", m.path(m.LeaderID))
+		return
+	}
+	n := 0
+	for _, g := range sortedFns(m.staticReach(root, false)) {
+		eachInstr(g, func(in ssa.Instruction) {
+			call, ok := in.(*ssa.Call)
+			if !ok || !containsFn(observe, call.Call.StaticCallee()) {
+				return
+			}
+			n++
+			var bad []string
+			for _, l := range append(append([]Lit{}, m.GuardsAt(in)...), m.controlConds(in)...) {
+				if l.S.Op != "bin" || l.S.Name != "==" || len(l.S.Args) != 2 {
+					continue
+				}
+				for i := 0; i < 2; i++ {
+					if l.S.Args[i].String() == `""` && l.S.Args[1-i].V != nil && m.Origins(l.S.Args[1-i].V)["field:"+m.LeaderID] {
+						bad = append(bad, l.String())
+					}
+				}
+			}
+			key := fmt.Sprintf("observed leader recorded also when none is known: call #%d in %s", ordinalOf(g, in, func(x ssa.Instruction) bool {
+				c2, ok := x.(*ssa.Call)
+				return ok && containsFn(observe, c2.Call.StaticCallee())
+			}), shortFn(g))
+			c.check(len(bad) == 0, rule, key, in, "the hand-over of the record's id depends on the known leader id being non-empty: %v. A follower that starts with LeaderID \"\" and cannot establish its watch then never records the leader the periodic check reads.", bad)
+		})
+	}
+	if n < 2 {
+		c.undecided(rule, "instance-floor", firstInstr(root), "only %d calls that record an observed leader found on the follower side; 2 on the reference tree (watch event, periodic check)", n)
+	}
 }
